@@ -44,7 +44,7 @@ def tagsOf (s : St) (x : Nat) (o : Replay.Out) : String :=
   let w := s.c.window
   let t1 := if inAcc then
       (match s.h.acc.find? (fun e => e.1 == x) with
-       | some e => if e.2 < w then (if e.2 % 64 ≥ w % 64 ∧ e.2 / 64 == w / 64 then "replay-in-window replay-top-word " else "replay-in-window ")
+       | some e => if e.2 < w then (if w % 64 ≠ 0 ∧ e.2 / 64 == (w - 1) / 64 then "replay-in-window replay-top-word " else "replay-in-window ")
                    else "replay-behind-window "
        | none => "") else ""
   let t2 := if s.c.max < x then "above-max " else ""
